@@ -7,7 +7,7 @@ import random
 from coqemit import cbool, clist, copt, cpair, cstr, cstrlist, outcome
 
 ID = "C12"
-FACTS = ["Bool"]
+FACTS = ["Bool", "NegStrSrc"]
 COQ_HEADER = "From SPV Require Import CorrDefs.CorrC12."
 COQ_CASE_TYPE = "case"
 RULE = ("bool field (default True/False/required; plain, custom negative_prefix or explicit negative_option) placed in one "
@@ -31,7 +31,9 @@ def casings(w):
 
 def setups(rng, tier):
     out = []
-    names = ["flag", "my_flag", "v"]
+    # names that themselves begin with a negative prefix ("no", "disable_"): the positive option of such a field must not be
+    # mistaken for a negative one (seeded change C12-03 recognised negatives by their spelling instead of by membership)
+    names = ["flag", "my_flag", "v", "notify", "no_cache", "disable_it"]
     for name in names:
         for default in (True, False, None):
             for layout in ("single", "two", "nested2"):
